@@ -5,9 +5,10 @@ from . import common as C
 TRUSTED_BASE = [
     "Lean 4.33.0 kernel (lake build); thorough tier re-checks the property module with leanchecker",
     "axioms per theorem as printed by #print axioms (allowed: propext, Classical.choice, Quot.sound); no sorry/admit/native_decide/bv_decide/user axioms (grep + audit)",
-    "tools/extract_constants.py (regex translator of constants and the data-type table; its output is compared with the frozen constants by a kernel-checked decide)",
-    "the correspondence check: Rust harness on the real library (path dependency on /repo/q_compress, overflow checks + debug assertions on) vs the compiled Lean model driver; differential testing, bounded by generator quality",
-    "modelled rather than verified: BitWriter/BitReader/BitWords word packing and the 6-bit-stride HuffmanTable (model works on bit lists and a tree walk); std SystemTime/Duration, sort_unstable, BinaryHeap; f64 log2/ceil/floor (never reasoned about: GCD field width is a parameter of every theorem, instantiated with hardware floats only in the driver); Arrow/Parquet/CSV and structopt in the CLI",
+    "tools/extract_constants.py (translator: constant items evaluated by rustc, data-type table / defaults / flag layout asked of the compiled library; its output is compared with the frozen constants by a kernel-checked decide)",
+    "the correspondence check: Rust harness on the real library (path dependency on /repo/q_compress, overflow checks + debug assertions on, guarded hooks of /repo compiled in; hooks-off fallback build when they do not compile) vs the compiled Lean model driver; differential testing, bounded by generator quality",
+    "literal (statement-level) Lean models proved equal to the abstract models the property theorems speak about, each tied to the Rust text it follows by its own stream: BitWords/BitReader/BitWriter (bwords/bread/bwrite), HuffmanTable, NumDecompressor incl. fast path (numdec, ndbounds), body writer + CompressionTable (bodywrite), chunk metadata / flags I/O, GCD loops, make_huffman_code, Compressor + delta encoding (lcops), train_prefixes (explains on every table, lit=), Decompressor / ChunkBodyDecompressor / validate_prefix_tree (ldops)",
+    "modelled rather than verified: std SystemTime/Duration arithmetic; BinaryHeap (any least element) and sort_unstable (the sorted list); f64 log2/ceil/floor (never reasoned about: parameters/oracles gb, EstOk, FloatsAgree, CostFinite, whose hypotheses stream floatfns compares with the code value by value); the 15 NumberLike impls as bit-pattern maps (map stream); auto_delta_encoding_order and the CLI handlers as glue models; Arrow/Parquet/CSV and structopt in the CLI; allocation behaviour",
 ]
 
 class Ctx:
